@@ -13,7 +13,7 @@ use reactive_graph::{
     effect::RenderEffect,
     owner::{provide_context, use_context, Owner},
     signal::ArcRwSignal,
-    traits::{Dispose, Get, Read, Track, With},
+    traits::{Dispose, Get, GetUntracked, Read, Track, With},
 };
 use slotmap::{DefaultKey, SlotMap};
 use std::sync::Arc;
@@ -166,17 +166,19 @@ where
         let mut children = Some(self.children);
         let mut fallback = Some(self.fallback);
         let none_pending = self.none_pending;
-        let mut nth_run = 0;
+        // whether the children have already been on screen with nothing pending
+        let mut children_shown = false;
         let outer_owner = Owner::new();
 
         RenderEffect::new(move |prev| {
             // show the fallback if
             // 1) there are pending futures, and
-            // 2) we are either in a Suspense (not Transition), or it's the first fallback
-            //    (because we initially render the children to register Futures, the "first
-            //    fallback" is probably the 2nd run
-            let show_b = !none_pending.get() && (!TRANSITION || nth_run < 2);
-            nth_run += 1;
+            // 2) we are either in a Suspense (not Transition), or the children have never been
+            //    shown with all of their futures resolved (we initially render the children to
+            //    register Futures, so the first run never counts on its own: whether they were
+            //    shown is decided after they have been built)
+            let show_b =
+                !none_pending.get() && (!TRANSITION || !children_shown);
             let this = OwnedView::new_with_owner(
                 EitherKeepAlive {
                     a: children.take(),
@@ -186,12 +188,30 @@ where
                 outer_owner.clone(),
             );
 
-            if let Some(mut state) = prev {
+            let mut state = if let Some(mut state) = prev {
                 this.rebuild(&mut state);
                 state
             } else {
                 this.build()
+            };
+            if TRANSITION && !show_b && !children_shown {
+                if none_pending.get_untracked() {
+                    children_shown = true;
+                } else {
+                    // the children registered pending futures while they were being built:
+                    // this is the initial load, which does show the fallback
+                    OwnedView::new_with_owner(
+                        EitherKeepAlive::<Chil, Fal> {
+                            a: None,
+                            b: None,
+                            show_b: true,
+                        },
+                        outer_owner.clone(),
+                    )
+                    .rebuild(&mut state);
+                }
             }
+            state
         })
     }
 
